@@ -17,6 +17,17 @@ Require Import Ctpg.Valid.SpecMatch.
 Require Import Ctpg.Proofs.CellBasics.
 Require Import Ctpg.Proofs.CellResolve.
 Require Import Ctpg.Proofs.LRSound.
+Require Import Ctpg.Valid.LRResolved.
+Require Import Ctpg.Spec.Grouping.
+Require Import Ctpg.Proofs.GroupingFacts.
+Require Import Ctpg.Proofs.GroupingSpec.
+Require Import Ctpg.Proofs.Grouping.
+Require Import Ctpg.Proofs.GroupingConservative.
+Require Import Ctpg.Proofs.GroupingAnalyze.
+Require Import Ctpg.Proofs.GroupingUnique.
+Require Import Ctpg.Proofs.GroupingPure.
+Require Import Ctpg.Proofs.GroupingExamples.
+Require Import Ctpg.Proofs.GroupingPureExamples.
 From Coq Require Import Permutation.
 
 (* solve_conflict is the documented rule: reduce iff the rule's precedence is greater, or equal with left associativity *)
@@ -54,3 +65,63 @@ Theorem C05_accepted_inputs_have_derivation_trees :
   forall (g : grammar) (sts : list items) (tbl : LRGen.table) (w : list nat) (t : tree), validate_sound g sts tbl = true -> no_error_symbol g tbl = true -> tokens_ok g w -> accepts g tbl w t -> derives_tree g t w.
 Proof. exact lr_sound. Qed.
 Print Assumptions C05_accepted_inputs_have_derivation_trees.
+
+(* CONSEQUENTLY, for every grammar, every table whose S/R cells are decided by the documented rule (validate_resolved, a decidable check discharged on the real tables) and every input of any length: in the tree the parser returns, every node e -> e t e has a left operand node (a t0 b) only if the documented rule says reduce for (rule of t0, t), and a right operand node (b t2 c) only if it says shift for (its own rule, t2) *)
+Theorem C05_grouping :
+  forall (g : grammar) (sts : list items) (tbl : LRGen.table) (w : list nat) (tr : tree), validate_resolved g sts tbl = true -> no_error_symbol g tbl = true -> tokens_ok g w -> accepts g tbl w tr -> well_grouped g tr.
+Proof. exact grouping. Qed.
+Print Assumptions C05_grouping.
+
+(* and that tree is a derivation tree of the input *)
+Theorem C05_grouping_with_derivation :
+  forall (g : grammar) (sts : list items) (tbl : LRGen.table) (w : list nat) (tr : tree), validate_resolved g sts tbl = true -> no_error_symbol g tbl = true -> tokens_ok g w -> accepts g tbl w tr -> derives_tree g tr w /\ well_grouped g tr.
+Proof. exact grouping_derivation. Qed.
+Print Assumptions C05_grouping_with_derivation.
+
+(* in the usual vocabulary: an operator of lower precedence is never a direct operand of one of higher precedence; equal precedence nests to the left for left-associative and to the right otherwise *)
+Theorem C05_groups_by_precedence_then_associativity :
+  forall (g : grammar) (tr : tree), well_grouped g tr -> groups_by_precedence g tr.
+Proof. exact well_grouped_by_precedence. Qed.
+Print Assumptions C05_groups_by_precedence_then_associativity.
+
+(* what validate_resolved demands of one cell: the four cases of the documented resolution, nothing else *)
+Theorem C05_resolved_cell_reading :
+  forall (g : grammar) (sts : list items) (tbl : LRGen.table) (s t : nat), cell_resolved g sts tbl s t = true <-> cell_spec g sts tbl s t.
+Proof. exact cell_resolved_iff. Qed.
+Print Assumptions C05_resolved_cell_reading.
+
+(* no other cell is affected: a table that passes the conflict-free validator passes the resolved one *)
+Theorem C05_conflict_free_tables_are_resolved_tables :
+  forall (g : grammar) (sts : list items) (tbl : LRGen.table), validate g sts tbl = true -> validate_resolved g sts tbl = true.
+Proof. exact validate_implies_resolved. Qed.
+Print Assumptions C05_conflict_free_tables_are_resolved_tables.
+
+(* pure operator grammars e -> e t_i e | atom (any number of operators, any declarations): the resolved table accepts every operator expression *)
+Theorem C05_operator_family_complete :
+  forall (g : grammar) (sts : list items) (tbl : LRGen.table) (e atom : nat) (w : list nat), validate_resolved g sts tbl = true -> pure_family g e atom -> tokens_ok g w -> opseq g e atom w -> exists tr : tree, accepts g tbl w tr.
+Proof. exact pure_complete. Qed.
+Print Assumptions C05_operator_family_complete.
+
+(* and, without explicit rule precedences, the returned tree is the ONLY well-grouped derivation tree of the input *)
+Theorem C05_operator_family_unique :
+  forall (g : grammar) (sts : list items) (tbl : LRGen.table) (e atom : nat) (w : list nat), validate_resolved g sts tbl = true -> no_error_symbol g tbl = true -> pure_family g e atom -> (forall i r t : nat, binop_at g i r e t -> plain_rule g i t) -> tokens_ok g w -> opseq g e atom w -> exists tr : tree, accepts g tbl w tr /\ derives_tree g tr w /\ well_grouped g tr /\ (forall tr' : tree, derives_tree g tr' w -> well_grouped g tr' -> tr' = tr).
+Proof. exact pure_unique. Qed.
+Print Assumptions C05_operator_family_unique.
+
+(* REFUTED corner: with explicit rule precedences the choice relation need not be transitive and a second well-grouped tree exists (the parser still returns the tree of C05_grouping) *)
+Theorem C05_uniqueness_with_explicit_rule_precedence_refuted :
+  validate_resolved gf (sts_of gf) (tbl_of gf) = true /\ no_error_symbol gf (tbl_of gf) = true /\ pure_family gf 0 3 /\ tokens_ok gf wf /\ opseq gf 0 3 wf /\ accepts gf (tbl_of gf) wf tf_parser /\ derives_tree gf tf_other wf /\ well_grouped gf tf_other /\ tf_other <> tf_parser.
+Proof. exact unique_refuted_explicit_prec. Qed.
+Print Assumptions C05_uniqueness_with_explicit_rule_precedence_refuted.
+
+(* non-vacuity: the example grammars have other derivation trees of the same inputs that are not well grouped *)
+Theorem C05_grammar_is_ambiguous_parser_picks_documented_tree :
+  (derives_tree ga (times (plus n_ n_) n_) w1 /\ ~ well_grouped ga (times (plus n_ n_) n_)) /\ (derives_tree ga (plus n_ (plus n_ n_)) w3 /\ ~ well_grouped ga (plus n_ (plus n_ n_))) /\ (derives_tree gb (plus (plus n_ n_) n_) w3 /\ ~ well_grouped gb (plus (plus n_ n_) n_)) /\ (derives_tree gc (times (plus n_ n_) n_) w1 /\ ~ well_grouped gc (times (plus n_ n_) n_)) /\ derives_tree gd (plus n_ (times n_ n_)) w1 /\ ~ well_grouped gd (plus n_ (times n_ n_)).
+Proof. exact other_trees_not_well_grouped. Qed.
+Print Assumptions C05_grammar_is_ambiguous_parser_picks_documented_tree.
+
+(* rule analysis: a rule without [n] gets the precedence and associativity of its last term *)
+Theorem C05_rules_without_explicit_precedence_are_plain :
+  forall (rg : raw_grammar) (g : grammar) (i r e t : nat) (rr : raw_rule), analyze rg = Some g -> binop_at g i r e t -> nth_error (rg_rules rg) r = Some rr -> rr_prec rr = None -> plain_rule g i t.
+Proof. exact analyze_binop_plain. Qed.
+Print Assumptions C05_rules_without_explicit_precedence_are_plain.
